@@ -80,6 +80,10 @@ type Conn struct {
 func NewConn(s *Store, name string) *Conn {
 	c := &Conn{S: s, Name: name}
 	c.cond = sync.NewCond(&c.mu)
+	if s.Locked {
+		s.Mu.Lock()
+		defer s.Mu.Unlock()
+	}
 	s.Opened++
 	return c
 }
@@ -255,7 +259,13 @@ func (c *Conn) Close() error {
 		return nil
 	}
 	c.LocalClosed = true
-	c.S.Closed++
+	if c.S.Locked {
+		c.S.Mu.Lock()
+		c.S.Closed++
+		c.S.Mu.Unlock()
+	} else {
+		c.S.Closed++
+	}
 	c.cond.Broadcast()
 	return nil
 }
